@@ -212,7 +212,7 @@ func c03R4(a *A, r *Roles, ar *Arms) {
 	if !a.need(rot != nil, rule, "Rotate call in the parser") {
 		return
 	}
-	a.check(rot.Common().Value == r.StrippedEv && len(rot.Common().Args) == 1 && rot.Common().Args[0] == r.FormatPhi, rule, "rotate-call@parser", w.posOf(rot),
+	a.check(rot.Common().Value == r.StrippedEv && len(rot.Common().Args) == 1 && r.isFormat(rot.Common().Args[0]), rule, "rotate-call@parser", w.posOf(rot),
 		"Rotate(format) on the stripped event", "Rotate is not called on the stripped current event with the current format")
 	want := map[string]int{"Filename": 0, "Offset": 1}
 	seen := map[string]bool{}
